@@ -321,6 +321,7 @@ struct RunOut {
     /// messages handed to `send` (in order) with their dst-ok flag
     sent: Vec<(Vec<u8>, bool)>,
     send_failed: bool,
+    rejected: usize,
     /// a Pending that nobody will wake although no socket half said "blocks for ever"
     lost_wakeup: bool,
     /// which half blocked when the run ended with `I`
@@ -363,6 +364,7 @@ fn run_case(c: &Case) -> RunOut {
         flushes: 0,
         sent: vec![],
         send_failed: false,
+        rejected: 0,
         lost_wakeup: false,
         idle_side: None,
         idle_send_wakes: None,
@@ -401,9 +403,12 @@ fn run_case(c: &Case) -> RunOut {
                     handle.with_remote_addr(other).send(SerialMessage::new(m.clone(), peer))
                 };
                 if r.is_err() {
+                    // rejected by the bounded outbound queue: the caller is told, the message is not sent
                     out.send_failed = true;
+                    out.rejected += 1;
+                } else {
+                    out.sent.push((m.clone(), *ok));
                 }
-                out.sent.push((m.clone(), *ok));
             }
             Act::Poll => {
                 let t = poll_once(&mut out);
@@ -511,6 +516,12 @@ pub fn exec(line: &str, rec: &mut Recorder) {
         hex(&o.written),
         o.flushes
     );
+    // the capacity of the outbound queue is not modelled: such a line has no model side
+    let out = if o.send_failed { "~".to_string() } else { out };
+    if o.send_failed {
+        rec.impl_only += 1;
+        rec.stat_n("send.rejected-by-full-queue", o.rejected as u64);
+    }
     let idx = rec.case(line.to_string(), out);
 
     // ---------------------------------------------------------------- the property's oracle
@@ -565,7 +576,7 @@ pub fn exec(line: &str, rec: &mut Recorder) {
         if !want.starts_with(&o.written) {
             fails.push("bytes written are not a prefix of the concatenated frames".into());
         }
-        if !write_can_fail && !write_blocked && !o.send_failed {
+        if !write_can_fail && !write_blocked {
             if o.written != want {
                 fails.push(format!("bytes written incomplete although the send loop finished: {} of {}", o.written.len(), want.len()));
             }
@@ -576,8 +587,8 @@ pub fn exec(line: &str, rec: &mut Recorder) {
     } else {
         rec.stat("send.oversize(>65535, outside the property)");
     }
-    if o.send_failed {
-        fails.push("handle.send failed (queue full?)".into());
+    if o.send_failed && o.sent.len() < 33 {
+        fails.push(format!("handle.send rejected a message with only {} queued (buffer 32 + 1)", o.sent.len()));
     }
     // validated only: wake-ups
     if o.lost_wakeup {
@@ -877,7 +888,7 @@ fn all_compositions(bytes: &[u8], mut f: impl FnMut(Vec<Vec<u8>>)) {
 
 fn enumerate(o: &Opts, rec: &mut Recorder) {
     // message-length configurations whose stream has at most `cap` bytes
-    let cap = if o.thorough() { 14 } else { 9 };
+    let cap = if o.thorough() { 14 } else { 10 };
     let cfgs: &[&[usize]] = &[
         &[1], &[2], &[1, 1], &[3], &[2, 1], &[1, 2], &[5], &[1, 1, 1], &[7], &[3, 2], &[2, 2, 2], &[1, 2, 3], &[10], &[4, 4],
         &[3, 3, 2], &[5, 5], &[12], &[0], &[1, 0], &[0, 1], &[1, 0, 1], &[2, 0, 2, 0],
@@ -938,6 +949,35 @@ fn enumerate(o: &Opts, rec: &mut Recorder) {
     }
 }
 
+/// hand-built cases that are too long for the corpus file
+fn built() -> Vec<String> {
+    let mut v = vec![];
+    // 40 one-byte messages queued before the first poll: the bounded queue (32 + 1 sender slot) rejects the tail
+    let prog: Vec<Act> = (0..40u8).map(|i| Act::Send(vec![i], true)).collect();
+    let ws: Vec<WEv> = (0..90).map(|_| WEv::Accept(65535)).collect();
+    v.push(case_line('t', true, &[REv::Eof], &ws, &prog));
+    // 33 fit exactly
+    let prog: Vec<Act> = (0..33u8).map(|i| Act::Send(vec![i], true)).collect();
+    v.push(case_line('t', false, &[REv::Data(vec![0, 1, 0x61]), REv::Eof], &ws, &prog));
+    // 65535 bytes: the largest message a two-byte prefix can announce; 65536 / 65539: `len as u16` wraps
+    for n in [65535usize, 65536, 65539] {
+        let m: Vec<u8> = (0..n).map(|i| (i % 251) as u8).collect();
+        let ws = vec![WEv::Accept(1), WEv::Accept(40000), WEv::Pending, WEv::Accept(65535), WEv::Accept(65535)];
+        v.push(case_line('t', true, &[REv::Eof], &ws, &[Act::Send(m, true)]));
+    }
+    // a 65535-byte message received in three chunks
+    let m: Vec<u8> = (0..65535usize).map(|i| (i % 253) as u8).collect();
+    let f = frame(&m);
+    v.push(case_line(
+        't',
+        true,
+        &[REv::Data(f[..1].to_vec()), REv::Data(f[1..30000].to_vec()), REv::Pending, REv::Data(f[30000..].to_vec()), REv::Eof],
+        &[],
+        &[],
+    ));
+    v
+}
+
 pub fn run(o: &Opts, rec: &mut Recorder) {
     rec.rule = "scripted sockets from a seeded generator: 0-3 framed messages of lengths 1..300 (1, 2, 255, 256 forced often), zero-length frames, six chunking styles (all 1-byte, small, large, whole, cuts inside every length prefix, mixed), Pending sprinkled at four densities, EOF at the boundary / inside prefix / inside body, read errors, open ends; 0-3 outbound messages with acceptance scripts (1-byte, small, large, accept-0, Pending, errors, blocked), sends up front or interleaved with polls; plus ALL compositions of small streams (see distribution). Non-trivial: at least one message delivered or framed bytes written through a multi-event script; distinct by case line".into();
     for l in o.pre_lines.clone() {
@@ -947,11 +987,14 @@ pub fn run(o: &Opts, rec: &mut Recorder) {
     if o.replay_only {
         return;
     }
+    for l in built() {
+        exec(&l, rec);
+    }
     let before = rec.cases.len();
     enumerate(o, rec);
     rec.stat_n("enumerated.all-compositions-cases", (rec.cases.len() - before) as u64);
     let mut r = Rng::new(o.seed);
-    for _ in 0..o.n(4000, 150_000) {
+    for _ in 0..o.n(12_000, 200_000) {
         let l = gen_case(&mut r);
         exec(&l, rec);
     }
